@@ -51,6 +51,7 @@ var c01Hand = []string{
 	"data: a\rdata: b\r\r", "data: a\r\ndata: b\r\n\r\n", "data: a\n\rdata: b\n\r\n", "\r\r\rdata: x\r\r",
 	"data: x\n\ndata: y\n\ndata: z\n\n", "id: a\ndata: 1\n\ndata: 2\n\nid: b\ndata: 3\n\nevent: t\ndata: 4\n\n",
 	"retry: 10\ndata: x\n\n", "retry: 10\n\nretry: 20\n\ndata: x\n\n", "retry: 1000000000000\n\n", "retry: 999999999999999999\n\n",
+	"retry: 9223372036854775807\n\n", "retry: 9223372036854775808\n\n", "retry: 18446744073709551615\n\n", "retry: 18446744073709551616\n\n", "retry: 09223372036854775808\n\n",
 	"retry: 1 \n\n", "retry:  1\n\n", "retry: 1.5\n\n", "retry: 0x10\n\n", "retry: 1e3\n\n", "retry: \xd9\xa1\n\n", "retry: 1_0\n\n",
 }
 
